@@ -153,7 +153,7 @@ func genCrash(cfg simkit.RunConfig, backend string) *Scenario {
 		r2 := simkit.Rand(cfg.Seed, "bgfaults")
 		sc.Net.Random = true
 		sc.Net.Rate = []float64{0.05, 0.1, 0.2}[r2.Intn(3)]
-		sc.Net.Kinds = []simkit.Fate{simkit.DropReq, simkit.DropResp, simkit.Dup, simkit.Delay, simkit.RENotLeader, simkit.REEpochNotMatch, simkit.REServerIsBusy}
+		sc.Net.Kinds = []simkit.Fate{simkit.DropReq, simkit.DropResp, simkit.Delay, simkit.RENotLeader, simkit.REEpochNotMatch, simkit.REServerIsBusy}
 		// the victim is more often a multi-statement pessimistic transaction whose earlier lock calls fail
 		v := &sc.Txns[0]
 		if v.Pessimistic && r2.Intn(2) == 0 {
@@ -173,7 +173,7 @@ func genCrash(cfg simkit.RunConfig, backend string) *Scenario {
 var commitFaults = []simkit.Fate{
 	simkit.DropReq, simkit.DropResp, simkit.DropReqSlow, simkit.DropRespSlow,
 	simkit.RENotLeader, simkit.REEpochNotMatch, simkit.REServerIsBusy, simkit.REStaleCommand,
-	simkit.TopoSplit, simkit.Stall, simkit.Dup, simkit.TopoLeader,
+	simkit.TopoSplit, simkit.Stall, simkit.TopoLeader,
 }
 
 const (
